@@ -47,6 +47,11 @@ fn log_channel_state(name: &str) {
         let until = ch.transmission_finish_time();
         let t = TICK.with(|t| *t.borrow());
         log(json!({"o": "ch", "m": "a", "busy": ch.is_busy(), "until": (until.as_nanos() / t.as_nanos()) as u64}));
+        // half of the time the probe is attached again during the run - whatever the channel is doing right now (transmitting,
+        // holding queued messages): replacing the probe touches nothing else of the channel
+        if NEXT_MSG.with(|n| *n.borrow()) % 2 == 1 {
+            ch.attach_probe(TxProbe(1));
+        }
     }
 }
 
